@@ -586,7 +586,7 @@ Theorem enum_def_naming a ident fs :
   /\ (forall menv inner k, unquoted menv (DEnumDef a ident fs) (VVariant (S k) inner)
         = option_map unraw (nth_error fs k))
   /\ (forall menv v, as_str menv (DEnumDef a ident fs) v = unquoted menv (DEnumDef a ident fs) v).
-Proof. repeat split; try reflexivity. intros menv v. now destruct v. Qed.
+Proof. repeat split; try reflexivity; try (intros menv v; now destruct v). Qed.
 
 (* pascal_case keeps exactly the letters and digits of the input *)
 Lemma capitalize_alnum w : alnum_word w ->
